@@ -193,7 +193,10 @@ def ref_sign_changes(cps):
     for k in (0, 1):
         ws = [n * (Fr(b[k]) - Fr(a[k])) for a, b in zip(cps, cps[1:])]
         roots, rel = ref.sign_change_roots(ref.power_coeffs(ws))
-        if rel is not None and abs(rel) < NEAR_DOUBLE: ill.append(k)
+        # a numerically double-rooted derivative is ill-conditioned in floats and excused -- except when the double root is EXACT and the
+        # control values are small integers: then the float discriminant is computed exactly (0.0) and no extreme may be reported
+        exact_int = all(float(p[k]).is_integer() and abs(p[k]) < 1e6 for p in cps)
+        if rel is not None and abs(rel) < NEAR_DOUBLE and not (rel == 0 and exact_int): ill.append(k)
         out += [(r, k) for r in roots]
     return sorted(out), ill
 
@@ -276,7 +279,8 @@ def match_group(s, group, scale):
         cuts.append(best)
     cuts.append(1.0)
     fails = []
-    if any(not (a < b) for a, b in zip(cuts, cuts[1:])): fails.append(f'cut parameters are not increasing: {cuts}')
+    # equal consecutive cuts are a zero-length piece (a numerically double root of the derivative reported twice): same trace, same order
+    if any(not (a <= b) for a, b in zip(cuts, cuts[1:])): fails.append(f'cut parameters are not in order: {cuts}')
     for j, g in enumerate(group):
         a, b = cuts[j], cuts[j + 1]
         want = ref.subdivide(cps, Fr(a), Fr(b))
@@ -353,6 +357,16 @@ def search(ctx):
     for _ in range(ctx.n(400, 10000)):
         fam = rng.choice(FAMS)
         sh, s = edge(rng, fam, fam_point(rng, fam), fam_point(rng, fam))
+        if rng.random() < 0.12:
+            # a coordinate whose derivative has an EXACT double zero (integer control values: hodograph coefficients m^2 s, -m n s, n^2 s):
+            # the derivative touches zero without changing sign, so no extreme may be reported there
+            m, n, sc = rng.randint(1, 4), rng.randint(1, 4), 3 * rng.randint(1, 30) * rng.choice([-1, 1])
+            d0, d1, d2 = m * m * sc, -m * n * sc, n * n * sc
+            v0 = rng.randint(-200, 200)
+            vals = [v0, v0 + d0 // 3, v0 + (d0 + d1) // 3, v0 + (d0 + d1 + d2) // 3]
+            oth = [rng.randint(-300, 300) for _ in range(4)]
+            k = rng.randrange(2)
+            s = CubicBezier(*[P(float(v), float(o)) if k == 0 else P(float(o), float(v)) for v, o in zip(vals, oth)]); sh = 'double-exact'; fam = 'int'
         ev += 1
         dist[f'segment/{fam}/{sh}'] = dist.get(f'segment/{fam}/{sh}', 0) + 1
         if len(s.points) > 2 and gen.nondegenerate(s): seen.add(gen.seg_key(s))
